@@ -17,16 +17,16 @@ pub fn prop() -> Prop {
 fn spec() -> Spec {
     Spec {
         kinds: vec![
-            Kind { name: "roundtrip", quick: 8_000, thorough: 400_000, serial: false },
-            Kind { name: "variants", quick: 12_000, thorough: 600_000, serial: false },
-            Kind { name: "mutants", quick: 20_000, thorough: 2_000_000, serial: false },
+            Kind { name: "roundtrip", quick: 30_000, thorough: 600_000, serial: false },
+            Kind { name: "variants", quick: 40_000, thorough: 800_000, serial: false },
+            Kind { name: "mutants", quick: 80_000, thorough: 3_000_000, serial: false },
         ],
         rule: "roundtrip: generated parameter sets (all geometry classes, integral-valued lengths such as b = 0 or c1 = 1, negative values, dof 5/6, J6 sign 0, offsets none / right angles / arbitrary) -> to_yaml() -> file -> from_yaml_file: geometry, signs, dof identical, offsets within 0.5e-4 degree. variants: files written by the harness in the documented format with integer vs real literals, deg(x) vs radians, 5- or 6-element arrays, dof nested / top-level / absent, comments, shuffled key order: must parse to the written values. mutants: valid files truncated, with deleted / duplicated lines, type swaps, random or non-UTF8 bytes, empty: Err or Ok, never a panic. non-trivial = file parsed (roundtrip/variants) or mutant differs from its original (mutants); distinct = hash(file text)",
         assumptions: vec![
             "the documented place of the dof entry is the top level (doc comment of from_yaml_file and to_yaml output); the nested place used by the bundled 5-DOF fixture is also accepted",
             "files are written under /verif/target/tmp/c19 and removed after each case",
         ],
-        minimums: vec![("oracle_evals", 30_000, 2_000_000), ("roundtrip.dof5", 500, 20_000), ("variants.parsed", 8_000, 400_000), ("mutants.survived", 15_000, 1_500_000)],
+        minimums: vec![("oracle_evals", 120_000, 3_500_000), ("roundtrip.dof5", 3_000, 60_000), ("variants.parsed", 30_000, 600_000), ("mutants.survived", 60_000, 2_000_000)],
     }
 }
 
@@ -63,6 +63,11 @@ fn roundtrip(idx: u64, rng: &mut Rng, mon: &mut Mon) {
     let mut robot = gen_robot(rng, idx, RobotMode::All, 0.3);
     {
         let p = &mut robot.rp;
+        // tiny but non-zero offsets (calibration corrections next to the printed precision)
+        if rng.bool(0.2) {
+            let j = rng.usize(6);
+            p.offsets[j] = rng.sign() * rng.logu(1e-6, 2e-3);
+        }
         p.a1 = integralize(rng, p.a1);
         p.a2 = integralize(rng, p.a2);
         p.b = integralize(rng, p.b);
@@ -319,8 +324,8 @@ fn variants(idx: u64, rng: &mut Rng, mon: &mut Mon) {
 fn mutants(idx: u64, rng: &mut Rng, mon: &mut Mon) {
     let base = if rng.bool(0.5) { write_variant(rng).text } else { to_params(&gen_robot(rng, idx, RobotMode::All, 0.3).rp).to_yaml() };
     let mut bytes = base.clone().into_bytes();
-    let mkind = rng.usize(10);
-    let mname = ["truncate", "delete_line", "duplicate_line", "type_swap", "random_bytes", "empty", "non_utf8", "only_comments", "multi_doc", "structure_swap"][mkind];
+    let mkind = rng.usize(11);
+    let mname = ["truncate", "delete_line", "duplicate_line", "type_swap", "random_bytes", "empty", "non_utf8", "only_comments", "multi_doc", "structure_swap", "array_length"][mkind];
     match mkind {
         0 => {
             let n = rng.usize(bytes.len() + 1);
@@ -386,6 +391,31 @@ fn mutants(idx: u64, rng: &mut Rng, mon: &mut Mon) {
             t.push_str(&base);
             if rng.bool(0.5) {
                 t.push_str("---\nother: 1\n");
+            }
+            bytes = t.into_bytes();
+        }
+        10 => {
+            // arrays with too few / too many / no entries (together with either dof value)
+            let mut lines: Vec<String> = base.lines().map(|s| s.to_string()).collect();
+            for l in lines.iter_mut() {
+                if l.contains('[') && l.contains(']') && rng.bool(0.6) {
+                    let a = l.find('[').unwrap() + 1;
+                    let b = l.rfind(']').unwrap();
+                    let items: Vec<String> = l[a..b].split(',').map(|s| s.trim().to_string()).filter(|s| !s.is_empty()).collect();
+                    let n = *rng.pick(&[0usize, 1, 2, 3, 4, 7, 8]);
+                    let mut out: Vec<String> = vec![];
+                    for k in 0..n {
+                        out.push(items.get(k % items.len().max(1)).cloned().unwrap_or_else(|| "1".to_string()));
+                    }
+                    *l = format!("{}[{}]{}", &l[..a - 1], out.join(", "), &l[b + 1..]);
+                }
+            }
+            let mut t = lines.join("\n") + "\n";
+            if rng.bool(0.5) {
+                t = t.replace("dof: 6", "dof: 5");
+                if !t.contains("dof:") {
+                    t.push_str("dof: 5\n");
+                }
             }
             bytes = t.into_bytes();
         }
